@@ -22,8 +22,10 @@ pub enum SumFamily {
     AlternatingCancel,
     TinyOnLargeBase,
     Dyadic,
+    /// normal values so small that one ulp of the running sum is subnormal
+    TinyScale,
 }
-const FAMILIES: [SumFamily; 8] = [
+const FAMILIES: [SumFamily; 9] = [
     SumFamily::Constant,
     SumFamily::UniformSameSign,
     SumFamily::LogUniform,
@@ -32,6 +34,7 @@ const FAMILIES: [SumFamily; 8] = [
     SumFamily::AlternatingCancel,
     SumFamily::TinyOnLargeBase,
     SumFamily::Dyadic,
+    SumFamily::TinyScale,
 ];
 
 #[derive(Clone, Copy, Debug, Serialize, Deserialize, PartialEq)]
@@ -115,6 +118,14 @@ fn gen<F: Fl>(c: &Case) -> Vec<F> {
         SumFamily::Dyadic => {
             for _ in 0..n {
                 v.push(r.range(-1024, 1024) as f64 / 64.0);
+            }
+        }
+        SumFamily::TinyScale => {
+            // values stay normal (>= 2^-120 resp. 2^-1010) while ulp(sum) falls below the normal range
+            let k = if c.f32 { 2f64.powi(-120) } else { 2f64.powi(-1010) };
+            let base = *r.pick(&[0.1, 0.7, 1.1]);
+            for _ in 0..n {
+                v.push(k * base * if r.chance(0.5) { 1.0 } else { 1.0 + r.f64() });
             }
         }
     }
@@ -305,12 +316,41 @@ fn judge<F: Fl>(c: &Case, l: &mut Local) {
     if l.wants_sample(&format!("{:?}", c.hist)) {
         l.sample(&format!("{:?}", c.hist), || json!({"case": c, "value": got.f(), "exact_sum": s.to_f64(), "error_over_u_sumabs": ratio, "naive_error_over_u_sumabs": nratio}));
     }
-    // statistics built on the sums inherit the bound (one-by-one histories only: same data)
-    if c.hist == Hist::OneByOne && c.n >= 2 {
-        let mut st = Arithmetic::<F>::new();
-        for &x in data.iter() {
-            let _ = StatisticsOps::append(&mut st, x);
-        }
+    // statistics built on the sums inherit the bound: one by one, and partial Arithmetic states merged
+    // by left fold (acc + part), right fold (part + acc: the accumulator is the right operand) and
+    // balanced tree. Squares of tiny-scale data underflow: that family is judged on the sums only.
+    if matches!(c.hist, Hist::OneByOne | Hist::LeftFold | Hist::RightFold | Hist::Balanced) && c.n >= 2 && c.family != SumFamily::TinyScale {
+        let st = if c.hist == Hist::OneByOne {
+            let mut st = Arithmetic::<F>::new();
+            for &x in data.iter() {
+                let _ = StatisticsOps::append(&mut st, x);
+            }
+            st
+        } else {
+            let sz = if c.chunk == 0 { 5 } else { c.chunk };
+            let parts: Vec<Arithmetic<F>> = data.chunks(sz).map(|ch| Arithmetic::<F>::from_iter(&ch.to_vec()).unwrap()).collect();
+            l.count("Arithmetic states merged (sum and sum of squares judged)");
+            match c.hist {
+                Hist::LeftFold => parts[1..].iter().fold(parts[0], |acc, p| acc + *p),
+                Hist::RightFold => parts[1..].iter().fold(parts[0], |acc, p| *p + acc),
+                _ => {
+                    let mut v = parts;
+                    while v.len() > 1 {
+                        let mut nx = Vec::with_capacity(v.len() / 2 + 1);
+                        let mut j = 0;
+                        while j + 1 < v.len() {
+                            nx.push(v[j] + v[j + 1]);
+                            j += 2;
+                        }
+                        if j < v.len() {
+                            nx.push(v[j]);
+                        }
+                        v = nx;
+                    }
+                    v[0]
+                }
+            }
+        };
         let n = c.n as f64;
         let mean = st.sample_mean().f();
         l.eval();
@@ -353,7 +393,7 @@ fn judge<F: Fl>(c: &Case, l: &mut Local) {
 fn make_case(seed: u64, i: u64, quick: bool) -> Case {
     let mut r = Rng::from(&[seed, 0xc08, i]);
     let f32 = i % 2 == 0;
-    let family = FAMILIES[(i / 2 % 8) as usize];
+    let family = FAMILIES[(i / 2 % 9) as usize];
     let hist = HISTS[(i / 16 % 8) as usize];
     // length ladder: mostly short, some long
     let n = match r.below(100) {
@@ -407,7 +447,7 @@ pub fn run(run: &Arc<Run>) {
             judge::<f64>(&c, l)
         }
     });
-    let mut req: Vec<String> = vec!["merged registers".into(), "merged registers sampled with non-zero compensation (x16)".into()];
+    let mut req: Vec<String> = vec!["Arithmetic states merged (sum and sum of squares judged)".into(), "merged registers".into(), "merged registers sampled with non-zero compensation (x16)".into()];
     for h in HISTS {
         req.push(format!("history:{:?}", h));
     }
